@@ -94,7 +94,10 @@ pub fn check_program(src: &str) -> Option<String> {
     None
 }
 
-const PROGRAMS: [&str; 14] = [
+const PROGRAMS: [&str; 16] = [
+    // nodes about which nothing is known (empty fact maps): code after an unconditional jump, a loop after a call
+    "main:\nli a0, 1\nj end\naddi x0, x0, 0\nend:\nli a7, 10\necall\n",
+    "main:\njal f\nloop:\naddi sp, sp, -4\nsw a0, 0(sp)\nbnez a0, loop\nli a7, 10\necall\nf:\nli a0, 3\nret\n",
     "main:\nla t0, handler\ncsrrw zero, 5, t0\njal f\nli a7, 10\necall\nf:\nret\nhandler:\naddi t1, t1, 1\nuret\n",
     "main:\njal fn_b\njal fn_a\nli a7, 10\necall\nfn_a:\naddi a1, a0, 0\nj shared\nfn_b:\nbeqz a0, shared\nret\nshared:\naddi a1, a1, 1\nret\n",
     "spin:\nj spin\n",
@@ -117,6 +120,6 @@ pub fn search(v: &serde_json::Value) -> i32 {
     }
     // the passes iterate hash sets: each program is analysed several times
     for p in PROGRAMS { for _ in 0..8 { if let Some(w) = check_program(p) { println!("witness: {w}"); return 1; } } }
-    println!("no unfaithful dump among {} programs (x 8 runs each; self-loops, nested loops, calls, functions entered at two labels, an interrupt handler, two functions sharing their tail, shared exits, labels in a row, stack / CSR / data memory facts with negative and positive offsets)", PROGRAMS.len());
+    println!("no unfaithful dump among {} programs (x 8 runs each; self-loops, nested loops, calls, functions entered at two labels, an interrupt handler, two functions sharing their tail, shared exits, nodes with empty fact maps, labels in a row, stack / CSR / data memory facts with negative and positive offsets)", PROGRAMS.len());
     0
 }
